@@ -118,7 +118,8 @@ def check(rep, ctx):
                 problems.append("the staged bytes are taken before the last staged write")
             K = sum(_struct.calcsize(f) for n, f in BATCH_SPEC[2:5])
             got_len = vals.get("batch_length")
-            if got_len != ("add", ("len", C), ("k", K)):
+            from ..descr import linear
+            if linear(got_len, ("len", C)) != (1, K):
                 problems.append(f"batchLength is {show_term(got_len)}; the fields between batchLength and the staged bytes "
                                 f"(partitionLeaderEpoch, magic, crc) take {K} bytes, so it must be len(staged) + {K}")
             if vals.get("crc") != ("crc32c", C):
